@@ -93,6 +93,30 @@ static void observe(RimeSessionId s, int ret, const std::string& text) {
       o << " menu=~";
     }
     api->free_context(&ctx);
+    // the segment list itself (never reported to a client): |composition input| and, per segment,
+    // start-end-length-status-selected_index-tags (a=abc r=raw p=partial g=paging e=selected_before_editing h=phony
+    // l=placeholder; other tags are not part of the model) — compared with the model and checked for geometry
+    {
+      auto sess = rime::Service::instance().GetSession(s);
+      if (sess && sess->context()) {
+        const rime::Composition& comp = sess->context()->composition();
+        o << " segs=" << comp.input().length() << ":";
+        if (comp.empty()) o << "-";
+        for (size_t i = 0; i < comp.size(); ++i) {
+          const rime::Segment& g = comp[i];
+          if (i) o << "|";
+          std::string t;
+          if (g.HasTag("abc")) t += "a";
+          if (g.HasTag("raw")) t += "r";
+          if (g.HasTag("partial")) t += "p";
+          if (g.HasTag("paging")) t += "g";
+          if (g.HasTag("selected_before_editing")) t += "e";
+          if (g.HasTag("phony")) t += "h";
+          if (g.HasTag("placeholder")) t += "l";
+          o << g.start << "-" << g.end << "-" << g.length << "-" << (int)g.status << "-" << g.selected_index << "-" << (t.empty() ? "0" : t);
+        }
+      }
+    }
   } else {
     o << " nocontext";
   }
